@@ -1,2 +1,2 @@
 (* C20 - all lemmas of the component *)
-From Args Require Export ArgsProofsStr ArgsProofsOpt ArgsProofsSplit ArgsProofsSplit2 ArgsProofsLaunch ProcProofsEnv ProcProofsObj.
+From Args Require Export ArgsProofsStr ArgsProofsOpt ArgsProofsSplit ArgsProofsSplit2 ArgsProofsClass ArgsProofsLaunch ProcProofsEnv ProcProofsObj.
